@@ -384,6 +384,7 @@ def run(prog, chk):
             chk.ok("C11.f", f, "%s maps to %s" % (name, prim), "%s:%s" % (f.file, f.line), f.r(cs[0])[:60], nontrivial=False)
         else:
             chk.bad("C11.f", f, "mutex-mapping", "%s:%s" % (f.file, f.line), "%s must be exactly one %s on the object's mutex%s" % (name, prim, " compared == 0" if shape else ""))
+    thread_start_publishes_first(prog, chk, "C11.j")
     # ---- C11.g
     f = fn(prog, "Thread::start", 2)
     where = "%s:%s" % (f.file, f.line)
@@ -602,3 +603,37 @@ def deadline_check(prog, chk, f, prim, ts_name="ts", tpar_name=None):
     else:
         chk.bad("C11.e", f, "deadline-carry-lost", where, "tv_sec does not receive tv_nsec / 1000000000 before tv_nsec is reduced: up to one second of the timeout is lost")
     return " ; ".join(q.no_casts(f.r(e)).replace(tpar, "$T").replace(TS + ".", "ts.").replace(TS + "->", "ts.") for e in sts)
+
+
+def thread_start_publishes_first(prog, chk, rid):
+    """the member-function overload of Thread::start hands the new thread the address of `this->func`; the thread reads it as soon as it
+    runs.  The record has to be written before the thread is created - afterwards the thread may already have called what `func` held
+    before (the previous start's function on a re-used Thread, garbage on a fresh one)."""
+    chk.rule(rid, "ORD: in Thread::start(X&, uint (X::*)()) the store to `this->func` lies on every path to the call that creates the thread "
+                  "with `&this->func`", floor=1)
+    fs = [f for f in prog.functions.values() if f.name == "Thread::start" and f.file.endswith("Thread.hpp") and f.blocks]
+    if not fs:
+        raise AnalysisBroken("Thread::start(X&, member function) is not instantiated")
+    for f in sorted(fs, key=lambda g: g.sig):
+        creates = [c for c in q.calls(f) if (f.nodes[c].get("callee") or "").endswith("Thread::start") and
+                   any("this->func" in q.no_casts(f.r(a)) for a in q.call_args(f, c))]
+        pubs = [s.node for s in q.stores(f) if q.no_casts(f.r(s.lhs)) == "this->func"]
+        pubs += [i for i, n in enumerate(f.nodes) if n["k"] == "CXXOperatorCallExpr" and n.get("oop") == "=" and len(n["c"]) >= 2 and
+                 q.no_casts(f.r(n["c"][1])) == "this->func"]
+        pubs += [c for c in q.calls(f) if (f.nodes[c].get("callee") or "") in ("memcpy", "Memory::copy") and q.call_args(f, c) and
+                 "this->func" in q.no_casts(f.r(q.call_args(f, c)[0]))]
+        if not creates:
+            raise AnalysisBroken("%s: the call that creates the thread with &this->func was not found" % f.sig)
+        bad = None
+        for c in creates:
+            if f.node_pos(c) is None:
+                continue
+            if not pubs or f.find_path(f.entry_pos(), {f.node_pos(c)}, avoid=q.pos_of(f, pubs), after_src=False) is not None:
+                bad = c
+        if bad is None:
+            chk.ok(rid, f, "`func` is written before the thread that reads it is created", f.where(creates[0]), "no path to the creating call avoids the store", evals=len(creates) + len(pubs))
+        else:
+            chk.bad(rid, f, "thread-created-before-its-record", f.where(bad),
+                    "`%s` creates the thread, which reads `this->func` at once, on a path where `this->func` has not been written yet: the thread "
+                    "calls the previous start's function (join() returns that function's result, the started one never runs) or a wild pointer" % (
+                        q.no_casts(f.r(bad))[:50]), evals=len(creates) + len(pubs))
